@@ -6,6 +6,9 @@ Ops (matrices in the `QJson` dyadic encoding, rationals as `[num, den]` or an in
 
 * `excl_primal {"d":d,"rho":[mat…],"p":[rat…],"M":[mat…],"LM":[mat…]}`
 * `excl_dual   {"d":d,"rho":[mat…],"p":[rat…],"Y":mat,"LY":[mat…]}`
+* `excl_unamb_primal {"d","rho","p","M":[mat…],"LM":[mat…],"LR":mat}`, `excl_unamb_dual {"d","rho","p","N":mat,"a":[rat…],"LN":mat,"LD":[mat…]}`
+* `excl_program {"d","states":[{"vec":mat}|{"dm":mat}…],"p":[rat…]|null,"form":"me_primal"|"me_dual"|"ua_primal"|"ua_dual", point…}`
+* `excl_post {"n":n,"v":rat}`, `excl_family {"name":"trine","h":rat,"r":rat}` / `{"name":"pbr","n":n,"c":rat,"s":rat}`
 
 Answer `{"ok":[num,den]}` (the exact objective value returned by the verified checker) or
 `{"reject":"<first failed condition>"}`.  The verdict is always the one of the verified checker of
@@ -78,7 +81,145 @@ def hExclDual : Handler := fun j => do
         | some (i, s) => s!"p_rho_minus_Y[{i}]_{s}"
         | none => "rejected"
 
+def hUnambPrimal : Handler := fun j => do
+  let d ← getNat j "d"
+  let rho ← getEMatList j "rho" d d
+  let p ← getRatList j "p"
+  let M ← getEMatList j "M" d d
+  let LM ← getEMatList j "LM" d d
+  let LR ← getEMat j "LR" d d
+  let ens : Ensemble d := ⟨rho, p⟩
+  let k := ens.size
+  return answer (checkUnambExclPrimal ens M LM LR) fun _ =>
+    match lenWhy k [("p", p.length), ("M", M.length), ("LM", LM.length)] with
+    | some s => s
+    | none =>
+      match firstPsdFail k (fun i => matAt M i) (fun i => matAt LM i) with
+      | some (i, s) => s!"M[{i}]_{s}"
+      | none =>
+        match psdWhy (unambRest k fun i => matAt M i) LR with
+        | some s => s!"one_minus_sum_M_{s}"
+        | none =>
+          match firstFail k fun i =>
+              decide (unambZeroLhs (fun i => ens.state i) (fun i => ens.prob i) (fun i => matAt M i) i = 0) with
+          | some i => s!"trace_rho_M[{i}]_not_zero"
+          | none => "rejected"
+
+def hUnambDual : Handler := fun j => do
+  let d ← getNat j "d"
+  let rho ← getEMatList j "rho" d d
+  let p ← getRatList j "p"
+  let N ← getEMat j "N" d d
+  let a ← getRatList j "a"
+  let LN ← getEMat j "LN" d d
+  let LD ← getEMatList j "LD" d d
+  let ens : Ensemble d := ⟨rho, p⟩
+  let k := ens.size
+  match checkUnambExclDual ens N a LN LD with
+  | some v => return Json.mkObj [("ok", ratJson v), ("code_objective", ratJson (unambDualCodeObjective N))]
+  | none =>
+    return reject <|
+      match lenWhy k [("p", p.length), ("a", a.length), ("LD", LD.length)] with
+      | some s => s
+      | none =>
+        match psdWhy N LN with
+        | some s => s!"N_{s}"
+        | none =>
+          match firstPsdFail k (fun i => unambDualSlack k (fun i => ens.state i) (fun i => ens.prob i) N
+              (fun i => ratAt a i) i) (fun i => matAt LD i) with
+          | some (i, s) => s!"dual_slack[{i}]_{s}"
+          | none => "rejected"
+
+/-- exact rational matrix as `{"re":[[num,den]…],"im":[[num,den]…]}` (row-major) -/
+def ematJson {n m : Nat} (A : EMat n m) : Json :=
+  let cells := (List.finRange n).flatMap fun i => (List.finRange m).map fun c => A.get i c
+  Json.mkObj [("re", Json.arr (cells.map fun z => ratJson z.re).toArray),
+    ("im", Json.arr (cells.map fun z => ratJson z.im).toArray)]
+
+def parseStateArg (d : Nat) (j : Json) : Except String (StateArg d) := do
+  match j.getObjVal? "vec" with
+  | .ok v => return .vec (← parseEMat d 1 v)
+  | .error _ => return .dm (← parseEMat d d (← j.getObjVal? "dm"))
+
+def optEMatList (j : Json) (key : String) (n m : Nat) : Except String (List (EMat n m)) :=
+  if isNull j key then pure [] else getEMatList j key n m
+
+def optEMat (j : Json) (key : String) (n m : Nat) : Except String (EMat n m) :=
+  if isNull j key then pure EMat.zero else getEMat j key n m
+
+def checkJson (r : Option Rat) : Json :=
+  match r with
+  | some v => Json.mkObj [("ok", ratJson v)]
+  | none => reject "rejected"
+
+/-- `excl_program`: the program `state_exclusion` builds for the given raw arguments (`prepare`), evaluated at a
+point: every operator that a constraint requires to be PSD (`psd`, in the order of the code's constraints), every
+matrix residual that must vanish (`eq`), every scalar residual (`zero`), the objective, and – when PSD witnesses are
+supplied – the verdict of the verified checker at that point. -/
+def hProgram : Handler := fun j => do
+  let d ← getNat j "d"
+  let sts ← (← (← j.getObjVal? "states").getArr?).toList.mapM (parseStateArg d)
+  let probs ← if isNull j "p" then pure none else (some <$> getRatList j "p")
+  let form ← (← j.getObjVal? "form").getStr?
+  let ens := prepare sts probs
+  let k := ens.size
+  let ρ : Fin k → EMat d d := fun i => ens.state i
+  let pr : Fin k → Rat := fun i => ens.prob i
+  let idx := List.finRange k
+  let base : List (String × Json) :=
+    [("rho", Json.arr (ens.states.map ematJson).toArray), ("p", Json.arr (ens.probs.map ratJson).toArray)]
+  let mats (l : List (EMat d d)) : Json := Json.arr (l.map ematJson).toArray
+  let rats (l : List Rat) : Json := Json.arr (l.map ratJson).toArray
+  match form with
+  | "me_primal" =>
+    let M ← getEMatList j "M" d d
+    let LM ← optEMatList j "LM" d d
+    let Mf : Fin k → EMat d d := fun i => matAt M i
+    return Json.mkObj (base ++ [("psd", mats (idx.map Mf)), ("eq", mats [exclPrimalEqResidual k Mf]),
+      ("zero", rats []), ("objective", ratJson (exclValue ens M)), ("check", checkJson (checkExclPrimal ens M LM))])
+  | "me_dual" =>
+    let Y ← getEMat j "Y" d d
+    let LY ← optEMatList j "LY" d d
+    return Json.mkObj (base ++ [("psd", mats (idx.map fun i => exclDualSlack ρ pr Y i)), ("eq", mats []),
+      ("zero", rats []), ("objective", ratJson Y.trace.re), ("check", checkJson (checkExclDual ens Y LY))])
+  | "ua_primal" =>
+    let M ← getEMatList j "M" d d
+    let LM ← optEMatList j "LM" d d
+    let LR ← optEMat j "LR" d d
+    let Mf : Fin k → EMat d d := fun i => matAt M i
+    return Json.mkObj (base ++ [("psd", mats (idx.map Mf ++ [unambRest k Mf])), ("eq", mats []),
+      ("zero", rats (idx.map fun i => unambZeroLhs ρ pr Mf i)), ("objective", ratJson (unambExclValueFn k ρ pr Mf)),
+      ("check", checkJson (checkUnambExclPrimal ens M LM LR))])
+  | "ua_dual" =>
+    let N ← getEMat j "N" d d
+    let a ← getRatList j "a"
+    let LN ← optEMat j "LN" d d
+    let LD ← optEMatList j "LD" d d
+    let af : Fin k → Rat := fun i => ratAt a i
+    return Json.mkObj (base ++ [("psd", mats ([N] ++ idx.map fun i => unambDualSlack k ρ pr N af i)), ("eq", mats []),
+      ("zero", rats []), ("objective", ratJson (unambDualCodeObjective N)),
+      ("bound", ratJson (unambDualBound k ρ pr N)), ("check", checkJson (checkUnambExclDual ens N a LN LD))])
+  | _ => return reject "unknown_form"
+
+/-- `excl_post`: what `is_antidistinguishable` / `common_quantum_overlap` compute from the solver's value -/
+def hPost : Handler := fun j => do
+  let n ← getNat j "n"
+  let v ← getRat j "v"
+  return Json.mkObj [("anti", Json.bool (antidistTest v)), ("cqo", ratJson (cqoPost n v)),
+    ("ones", Json.arr ((onesProbs n).map ratJson).toArray)]
+
+/-- `excl_family`: the constructors `trine()` (`h = ½`, `r ≈ √3`) and `pusey_barrett_rudolph(n, θ)`
+(`c ≈ cos(θ/2)`, `s ≈ sin(θ/2)`) on exact rationals -/
+def hFamily : Handler := fun j => do
+  let name ← (← j.getObjVal? "name").getStr?
+  let out (l : List (List Rat)) : Json := Json.mkObj [("states", Json.arr (l.map fun v => Json.arr (v.map ratJson).toArray).toArray)]
+  match name with
+  | "trine" => return out (trineStates (← getRat j "h") (← getRat j "r"))
+  | "pbr" => return out (pbrStates (← getNat j "n") (← getRat j "c") (← getRat j "s"))
+  | _ => return reject "unknown_family"
+
 def handlers : List (String × Handler) :=
-  [("excl_primal", hExclPrimal), ("excl_dual", hExclDual)]
+  [("excl_primal", hExclPrimal), ("excl_dual", hExclDual), ("excl_unamb_primal", hUnambPrimal),
+   ("excl_unamb_dual", hUnambDual), ("excl_program", hProgram), ("excl_post", hPost), ("excl_family", hFamily)]
 
 end Toq.Driver.C11
